@@ -197,6 +197,15 @@ class _Census:
                 if isinstance(p, (ast.If, ast.While)) and field == 'body' or isinstance(p, ast.IfExp) and field == 'body':
                     if any(_truthy_of(o, base, plain_ok) or ast.unparse(o) == member for o in _and_operands(p.test)):
                         return 'nonempty'
+                # guard clause: an earlier statement of the same block `if not <non-emptiness test>: continue / return / raise / break`
+                block = getattr(p, field, None) if isinstance(field, str) else None
+                if isinstance(block, list):
+                    i = next((j for j, x in enumerate(block) if x is cur), None)
+                    for st in block[:i or 0]:
+                        if isinstance(st, ast.If) and not st.orelse and st.body and isinstance(st.body[-1], (ast.Continue, ast.Return, ast.Raise, ast.Break)) \
+                                and isinstance(st.test, ast.UnaryOp) and isinstance(st.test.op, ast.Not) \
+                                and any(_truthy_of(o, base, plain_ok) or ast.unparse(o) == member for o in _and_operands(st.test.operand)):
+                            return 'nonempty'
             cur = p
         return 'none'
 
